@@ -11,12 +11,10 @@ import (
 	"encoding/binary"
 	"fmt"
 	"net"
-	"os"
 	"reflect"
 	"runtime"
 	"runtime/metrics"
 	"sort"
-	"strings"
 	"sync"
 	"unsafe"
 
@@ -40,15 +38,11 @@ const (
 	c10KeyGrows = "C10:reencode-of-near-max-input-exceeds-bound"
 )
 
-// c10Known: the key is listed as a known finding (or, for harness development
-// only, named in $VERIF_C10_KNOWN / "all").
+// c10Known: the key is listed with status "known" in known_findings.json. Every
+// guard has the shape `if c10Known(key) {exclude + count} else {assert}`, so a
+// fix in /repo (status "fixed") re-enables the class.
 func c10Known(key string) bool {
-	if vstats.IsKnown(key) {
-		return true
-	}
-	dev := os.Getenv("VERIF_C10_KNOWN")
-
-	return dev == "all" || (dev != "" && strings.Contains(dev, key))
+	return vstats.IsKnown(key)
 }
 
 // c10TB is what the oracles need from *rapid.T or *testing.T.
